@@ -393,6 +393,109 @@ func stmtSkeleton(p *pkgInfo, fd *ast.FuncDecl) []string {
 	return out
 }
 
+// lockTrace lists, in source order, every mutex operation of a function (receiver.Method for Lock, Unlock,
+// RLock, RUnlock; "defer " prefix when deferred) together with the control structure they sit in ("if{", "else{",
+// "for{", "}") and the returns: the critical sections of the function as written. Used where a model treats a
+// critical section as one atomic step and the interleavings in question are below call granularity.
+func lockTrace(p *pkgInfo, fd *ast.FuncDecl) []string {
+	var out []string
+	if fd == nil || fd.Body == nil {
+		return out
+	}
+	lockCall := func(e ast.Expr) string {
+		call, ok := e.(*ast.CallExpr)
+		if !ok || len(call.Args) != 0 {
+			return ""
+		}
+		sel, ok := call.Fun.(*ast.SelectorExpr)
+		if !ok {
+			return ""
+		}
+		switch sel.Sel.Name {
+		case "Lock", "Unlock", "RLock", "RUnlock":
+			return strings.Join(strings.Fields(src(p, sel.X)), "") + "." + sel.Sel.Name
+		}
+		return ""
+	}
+	var walk func(list []ast.Stmt)
+	var walkStmt func(st ast.Stmt)
+	walkStmt = func(st ast.Stmt) {
+		switch x := st.(type) {
+		case *ast.ExprStmt:
+			if t := lockCall(x.X); t != "" {
+				out = append(out, t)
+			}
+		case *ast.DeferStmt:
+			if t := lockCall(x.Call); t != "" {
+				out = append(out, "defer "+t)
+			}
+		case *ast.ReturnStmt:
+			out = append(out, "return")
+		case *ast.BlockStmt:
+			walk(x.List)
+		case *ast.IfStmt:
+			n := len(out)
+			out = append(out, "if{")
+			walk(x.Body.List)
+			out = append(out, "}")
+			if x.Else != nil {
+				out = append(out, "else{")
+				walkStmt(x.Else)
+				out = append(out, "}")
+			}
+			// an if without any lock operation or return inside is left out
+			plain := true
+			for _, t := range out[n:] {
+				if t != "if{" && t != "}" && t != "else{" {
+					plain = false
+				}
+			}
+			if plain {
+				out = out[:n]
+			}
+		case *ast.ForStmt:
+			n := len(out)
+			out = append(out, "for{")
+			walk(x.Body.List)
+			out = append(out, "}")
+			if len(out) == n+2 {
+				out = out[:n]
+			}
+		case *ast.RangeStmt:
+			n := len(out)
+			out = append(out, "for{")
+			walk(x.Body.List)
+			out = append(out, "}")
+			if len(out) == n+2 {
+				out = out[:n]
+			}
+		case *ast.SwitchStmt:
+			for _, c := range x.Body.List {
+				if cc, ok := c.(*ast.CaseClause); ok {
+					out = append(out, "case{")
+					walk(cc.Body)
+					out = append(out, "}")
+				}
+			}
+		case *ast.SelectStmt:
+			for _, c := range x.Body.List {
+				if cc, ok := c.(*ast.CommClause); ok {
+					out = append(out, "case{")
+					walk(cc.Body)
+					out = append(out, "}")
+				}
+			}
+		}
+	}
+	walk = func(list []ast.Stmt) {
+		for _, st := range list {
+			walkStmt(st)
+		}
+	}
+	walk(fd.Body.List)
+	return out
+}
+
 // lockShape reports whether the function's first statement locks the receiver's mutex (directly
 // embedded: recv.Lock(); or a field: recv.<field>.Lock()) and the second defers the unlock.
 func lockShape(fd *ast.FuncDecl) string {
@@ -901,6 +1004,15 @@ func main() {
 	// C16: the once-only guard of the "block complete" channel (two downloaders finishing the same block
 	// at the same moment is an interleaving below call granularity)
 	fx.CallOrders["guard_markBlockRequestComplete"] = stmtSkeleton(root, root.funcs["BlockManager.markBlockRequestComplete"])
+	// C06: the critical sections of the transaction manager's three entry points (the model takes each as one
+	// atomic step; races between them are below the call granularity of the correspondence)
+	for _, fn := range []string{"AddTxID", "AddTx", "GetTxRequests"} {
+		if fd := root.funcs["TxManager."+fn]; fd != nil {
+			fx.CallOrders["locks_"+fn] = lockTrace(root, fd)
+		} else {
+			miss("TxManager." + fn)
+		}
+	}
 	// C04: the order of the merkle / processor / store calls in BlockDownloader.handleBlock, and the
 	// `prune` argument of NewMerkleTree there (1 = true).
 	if hb := root.funcs["BlockDownloader.handleBlock"]; hb != nil {
@@ -1063,6 +1175,9 @@ func writeLean(path string, fx *facts) {
 		wrList("callOrder_"+k, fx.CallOrders[k])
 	}
 	wrList("guard_markBlockRequestComplete", fx.CallOrders["guard_markBlockRequestComplete"])
+	for _, k := range []string{"AddTxID", "AddTx", "GetTxRequests"} {
+		wrList("locks_"+k, fx.CallOrders["locks_"+k])
+	}
 	b.WriteString("\n/-- exported methods of the single-mutex components and their lock shape. -/\n")
 	b.WriteString("def lockShapes : List (String × String) := [\n")
 	keys = keys[:0]
